@@ -16,7 +16,7 @@ impl Span {
     pub fn end(self) -> (r: BytePos) ensures r == self.end { self.end }
 }
 pub struct SpannedExpr { pub span: Span, pub value: Expr }
-pub struct Do { pub id: X, pub typ: X, pub bound: Box<SpannedExpr>, pub body: Box<SpannedExpr>, pub flat_map_id: X }
+pub struct Do { pub id: Option<X>, pub typ: Option<X>, pub bound: Box<SpannedExpr>, pub body: Box<SpannedExpr>, pub flat_map_id: Option<X> }
 pub struct Lambda { pub id: X, pub args: X, pub body: Box<SpannedExpr> }
 pub struct Alternative { pub pattern: X, pub expr: SpannedExpr }
 // base/src/ast.rs Expr: same variants (checked by name every run)
@@ -72,3 +72,19 @@ pub fn last_expr(v: &Vec<SpannedExpr>) -> (r: Option<&SpannedExpr>)
 pub fn last_alt(v: &Vec<Alternative>) -> (r: Option<&Alternative>)
     ensures v@.len() == 0 ==> r is None, v@.len() > 0 ==> r is Some && *r->Some_0 == v@[v@.len() - 1]
 { unimplemented!() }
+
+// ---- grammar.lalrpop, BlockExpr: the arena (allocation = boxing here; `alloc_do` is `alloc` at type Do, which the env holds
+// by value) and base::pos::spanned2 = spanned(span(start, end), value) with span = Span::new (3 one-line functions in pos.rs, ASSUMED)
+pub struct Arena;
+impl Arena {
+    #[verifier::external_body]
+    pub fn alloc(&self, e: SpannedExpr) -> (r: Box<SpannedExpr>) ensures *r == e { unimplemented!() }
+    pub fn alloc_do(&self, d: Do) -> (r: Do) ensures r == d { d }
+}
+pub mod pos {
+    use super::*;
+    pub fn spanned(span: Span, value: Expr) -> (r: SpannedExpr) ensures r.span == span, r.value == value { SpannedExpr { span, value } }
+    pub fn spanned2(start: BytePos, end: BytePos, value: Expr) -> (r: SpannedExpr)
+        ensures r.span.start == (if start <= end { start } else { end }), r.span.end == (if start <= end { end } else { start }), r.value == value
+    { SpannedExpr { span: Span::new(start, end), value } }
+}
